@@ -5,6 +5,7 @@ pub fn dispatch(v: &Value) -> Value {
         "bdd_script" => bdd_script(v),
         "adf_sem" => adf_sem(v),
         "iter" => iter_cmd(v),
+        "adf_history" => adf_history(v),
         "mirror" => mirror_cmd(v),
         "ng" => ng_cmd(v),
         "bdd_query" => bdd_query(v),
@@ -370,4 +371,73 @@ pub fn mirror_cmd(v: &Value) -> Value {
 #[cfg(not(feature = "frontend"))]
 pub fn mirror_cmd(_v: &Value) -> Value {
     json!({"error": "frontend feature off"})
+}
+
+fn mcs(m: ModelCounts) -> Vec<String> {
+    vec![m.cmodels.to_string(), m.models.to_string()]
+}
+
+fn api_call(adf: &mut Adf, name: &str, n: usize, v: &Value) -> Value {
+    match name {
+        "formulacounts" => {
+            let mut out: Vec<Vec<String>> = adf.formulacounts(true).into_iter().map(mcs).collect();
+            out.extend(adf.formulacounts(false).into_iter().map(mcs));
+            json!(out)
+        }
+        "facet_count" => {
+            let ac = adf.ac.clone();
+            json!(adf.facet_count(&ac).into_iter().map(|(m, f)| { let mut x = mcs(m); x.push(f.0.to_string()); x.push(f.1.to_string()); x }).collect::<Vec<_>>())
+        }
+        "counts" => {
+            let ac = adf.ac.clone();
+            json!(ac.iter().map(|t| {
+                let mut x = mcs(adf.bdd.paths(*t, true));
+                x.push(adf.bdd.max_depth(*t).to_string());
+                x.extend(mcs(adf.bdd.models(*t, false)));
+                x
+            }).collect::<Vec<_>>())
+        }
+        "extra_ops" => {
+            let a0 = adf.ac[0];
+            let a1 = adf.ac[adf.ac.len() - 1];
+            let x = adf.bdd.xor(a0, a1);
+            let y = adf.bdd.restrict(x, Var(0), true);
+            let z = adf.bdd.or(y, a0);
+            adf.bdd.restrict(z, Var(n - 1), false);
+            Value::Null
+        }
+        other => {
+            let (res, _) = run_proc(adf, other, v);
+            json!(res.iter().map(|r| classes(r)).collect::<Vec<_>>())
+        }
+    }
+}
+
+pub fn adf_history(v: &Value) -> Value {
+    let n = us(&v["n"]);
+    let tabs = tabs_of(&v["tabs"]);
+    let mut adf = adf_from_tabs(n, &tabs);
+    let mut first: std::collections::HashMap<String, Value> = Default::default();
+    let mut repeat_differs = false;
+    for c in v["history"].as_array().unwrap() {
+        let name = c.as_str().unwrap();
+        let r = api_call(&mut adf, name, n, v);
+        if let Some(f) = first.get(name) {
+            let mut a: Vec<String> = f.as_array().map(|x| x.iter().map(|y| y.to_string()).collect()).unwrap_or_default();
+            let mut b: Vec<String> = r.as_array().map(|x| x.iter().map(|y| y.to_string()).collect()).unwrap_or_default();
+            a.sort();
+            b.sort();
+            if a != b {
+                repeat_differs = true;
+            }
+        } else {
+            first.insert(name.to_string(), r);
+        }
+    }
+    let fin = v["final"].as_str().unwrap();
+    let after = api_call(&mut adf, fin, n, v);
+    let changed = adf.ac.iter().zip(tabs.iter()).any(|(t, tb)| table(&adf.bdd, *t, n) != json!(tb));
+    let mut fresh_adf = adf_from_tabs(n, &tabs);
+    let fresh = api_call(&mut fresh_adf, fin, n, v);
+    json!({"after": after, "fresh": fresh, "tables_changed": changed, "repeat_differs": repeat_differs, "nodes": dump_nodes(&adf.bdd)})
 }
